@@ -8,6 +8,7 @@ import (
 	"net"
 	"os"
 	"reflect"
+	"runtime"
 	"strings"
 	"sync"
 	"time"
@@ -151,6 +152,52 @@ func stressBareServer(nConn int) error {
 	}
 }
 
+// yieldingWriter hands the processor to other goroutines inside every Write, the way a net.Conn with a slow peer does: anything
+// an Encoder still refers to while it writes is exposed to whatever other Encoders do meanwhile
+type yieldingWriter struct{ buf bytes.Buffer }
+
+func (w *yieldingWriter) Write(p []byte) (int, error) {
+	runtime.Gosched()
+	n, err := w.buf.Write(p)
+	runtime.Gosched()
+	return n, err
+}
+
+// interleavedEncoders: independent Encoders, each with its own value and its own (yielding) Writer, on ONE processor, so that
+// their Encode calls interleave at every Write; each output must be byte-identical to the same value encoded alone
+func interleavedEncoders(seed int64, workers, n int) (diff string) {
+	old := runtime.GOMAXPROCS(1)
+	defer runtime.GOMAXPROCS(old)
+	types := gen.StructTypes()
+	var wg sync.WaitGroup
+	var mu sync.Mutex
+	for w := 0; w < workers; w++ {
+		wg.Add(1)
+		go func(w int) {
+			defer wg.Done()
+			g := gen.New(seed*977 + int64(w))
+			for i := 0; i < n; i++ {
+				name := []string{"Request", "Response", "Attribute", "TemplateAttribute"}[(i+w)%4]
+				p := g.NewStruct(types[name])
+				var ref bytes.Buffer
+				if kmip.NewEncoder(&ref).Encode(p.Interface()) != nil {
+					continue
+				}
+				yw := &yieldingWriter{}
+				if err := kmip.NewEncoder(yw).Encode(p.Interface()); err != nil || !bytes.Equal(yw.buf.Bytes(), ref.Bytes()) {
+					mu.Lock()
+					if diff == "" {
+						diff = fmt.Sprintf("type %s: alone %x, interleaved with other Encoders %x (err %v)", name, ref.Bytes(), yw.buf.Bytes(), err)
+					}
+					mu.Unlock()
+				}
+			}
+		}(w)
+	}
+	wg.Wait()
+	return diff
+}
+
 func stressCodec(seed int64, workers, n int) {
 	types := gen.StructTypes()
 	names := typeNames(types)
@@ -205,6 +252,10 @@ func runC12(r *Result, d *drv.Driver, tier string, seed int64, replay string) {
 	}
 	stressCodec(seed, 16, codecN)
 	r.eval("codec-parallel", true)
+	if diff := interleavedEncoders(seed, 8, codecN); diff != "" {
+		r.find(Finding{Kind: "violation", What: "an Encoder's output was changed by other, independent Encoders running at the same time", Input: "8 goroutines, own Encoder / value / Writer each, interleaved at every Write", Actual: diff[:min(len(diff), 3000)]})
+	}
+	r.eval("codec-interleaved", true)
 	sub := newResult("C11", "quick", seed)
 	runC11(sub, d, "quick", seed, "")
 	r.Evaluations += sub.Evaluations
